@@ -211,13 +211,13 @@ theorem built_out (seq : Nat) (a b : List MediaSegment) (i : Nat) (prev : Option
       · exact ih ys _ _ h2 (fun s hs => ha s (by simp [hs])) s hs
 
 /-- what the text cannot guarantee by itself: Rust's decimal formatting of each EXTINF duration parses
-back to the same duration (a fact about `f32`/`f64` `Display`, FL2 in the trusted base), and the line-level
-round trip of the two tags whose `LineRT` is not proved here -/
+back to the same duration and the EXT-X-START offset reads back (facts about `f32`/`f64` `Display`: FL2, FL1 in
+the trusted base), and the line-level round trip of EXT-X-DATERANGE, whose `LineRT` is not proved here -/
 structure MediaOpen (p : MediaPlaylist) : Prop where
   secs : ∀ s ∈ p.segments, parseSecs (showSecs s.duration.duration) = .ok s.duration.duration ∧
     plainVal (showSecs s.duration.duration) = true
   dateRange : ∀ s ∈ p.segments, ∀ d, s.date_range = some d → LineRT (.dateRange d)
-  start : ∀ s, p.start = some s → LineRT (.start s)
+  start : ∀ s, p.start = some s → FloatRT s.time_offset
 
 /-- **every playlist assembled from good lines is in the writer's domain** -/
 theorem assembled_mediaWF (e : Option Nat) (ls : List Line) (p : MediaPlaylist) (h : assembleMedia (bE e) ls = .ok p)
